@@ -87,6 +87,12 @@ func startWatchdog() {
 	}()
 }
 
+func emit(tag string, v any) {
+	b, _ := json.Marshal(v)
+	fmt.Fprintf(out, "@@%s %s\n", tag, b)
+	out.Flush()
+}
+
 func TestWorker(t *testing.T) {
 	raw := os.Getenv("VERIF_JOB")
 	if raw == "" {
